@@ -57,6 +57,14 @@ CksVecs ==
           payload |-> <<a, b, (a + b) % 256>>,
           exp |-> [err |-> FALSE, bytes |-> <<32, 24, 200, a, 0, b, a, b, (a + b) % 256, Checksum(<<a, 0, b, a, b, (a + b) % 256>>)>>]]
           : a \in ras, b \in 0..255 }
+  \* long payloads of large byte values (sums that overflow a byte many times over, in every alignment): serialised
+  \* and, as a response with a correct checksum, decoded
+  \cup { LET pl == [i \in 1..n |-> <<255, 192, 128, 127, 254, 1>>[1 + ((i * f + f) % 6)]] IN
+         [id |-> "CksLong/" \o ToString(n) \o "/" \o ToString(f), prop |-> "C20", kind |-> "serialize", layer |-> "Message", class |-> "checksum2-long",
+          fields |-> [RemoteAddress |-> 32, Function |-> 10, RemoteLUN |-> 0, LocalAddress |-> 129, Sequence |-> 1, LocalLUN |-> 0, Command |-> 35],
+          payload |-> pl,
+          exp |-> [err |-> FALSE, bytes |-> <<32, 40, 184, 129, 4, 35>> \o pl \o <<Checksum(<<129, 4, 35>> \o pl)>>]]
+         : n \in {13, 14, 15, 16, 17, 23, 24, 25, 31, 32, 33, 40, 63, 64, 65, 100, 200}, f \in {1, 2, 3, 5, 7} }
 \* ---- DCMI rolling average: byte -> duration through the capabilities response (all 256), duration -> byte through Get Power Reading
 RollVecs ==
   { [id |-> "Roll/dec/" \o ToString(b), prop |-> "C20", kind |-> "decode", layer |-> "DCMICapsEnhancedSystemPowerStatisticsAttrsRsp", class |-> "period-byte",
